@@ -335,7 +335,7 @@ def run(tier, seed):
             if len(v.violations) > 200:
                 break
         # R, long simulated behaviours
-        nsim = 300 if tier == "quick" else 5000
+        nsim = 100 if tier == "quick" else 1500
         rs = common.run_tlc("Checks", "MC_ChecksSim.cfg", wd, workers=1, timeout=1200,
                             simulate="num=%d" % nsim, extra=["-depth", "15", "-seed", str(seed + 1)])
         for x in rs.records:
